@@ -147,7 +147,10 @@ class Model:
         if k == 'zero':
             return np_.zeros((upto,) + tuple(atom), dtype=name)
         if k == 'fill':
-            return np_.full((upto,) + tuple(atom), src[1], dtype=src[2])
+            v = src[1]
+            if isinstance(v, tuple):          # canonical key of symnp.fill_src: ('f', repr) / ('c', re, im)
+                v = float(v[1]) if v[0] == 'f' else complex(float(v[1]), float(v[2]))
+            return np_.full((upto,) + tuple(atom), v, dtype=src[2])
         if k == 'lit':
             return np_.array([src[1]]).reshape((1,) + tuple(atom))
         if k == 'sub':
